@@ -252,3 +252,37 @@ package htlcswitch
 //@   site call IsFull nth 0: assert arg(0) == fwdPkg.SettleFailFilter
 //@   site call IsFull nth 1: assert arg(0) == fwdPkg.AckFilter
 //@   ensures result == nil && !ret(IsFull, 0) ==> called(processRemoteSettleFails)
+//@
+//@ // ---- switch: a settle/fail travels back exactly over the circuit that was closed for it
+//@ func (s *Switch) handlePacketSettle
+//@   props C07 C08
+//@   requires packet != nil
+//@   loop * havoc
+//@   site call closeCircuit: assert arg(pkt) == packet
+//@   site call Deliver: assert arg(1) == packet.incomingChanID && arg(2) == packet && retn(closeCircuit, 1) == nil && retn(closeCircuit, 0) != nil
+//@   site store ForwardingEvent.IncomingChanID: assert value == retn(closeCircuit, 0).Incoming.ChanID
+//@   site store ForwardingEvent.OutgoingChanID: assert value == retn(closeCircuit, 0).Outgoing.ChanID
+//@   site store ForwardingEvent.AmtIn: assert value == retn(closeCircuit, 0).IncomingAmount
+//@   site store ForwardingEvent.AmtOut: assert value == retn(closeCircuit, 0).OutgoingAmount
+//@   ensures retn(closeCircuit, 1) != nil && !ret(Is) ==> result == retn(closeCircuit, 1)
+//@   site call Is: assert arg(0) == retn(closeCircuit, 1) && arg(1) == ErrCircuitClosing
+//@
+//@ func (s *Switch) handlePacketFail
+//@   props C07 C08
+//@   requires packet != nil
+//@   loop * havoc
+//@   site call closeCircuit: assert arg(pkt) == packet
+//@   site call Deliver: assert arg(1) == packet.incomingChanID && arg(2) == packet && retn(closeCircuit, 1) == nil &&
+//@        packet.incomingChanID != hop.Source
+//@   site store htlcPacket.obfuscator: assert value == retn(closeCircuit, 0).ErrorEncrypter && !packet.hasSource
+//@   site call EncryptFirstHop: assert packet.isResolution && !packet.hasSource
+//@   site call EncryptMalformedError: assert packet.convertedError && !packet.isResolution && arg(1) == htlc.Reason
+//@   site call IntermediateEncrypt: assert !packet.convertedError && !packet.isResolution && arg(1) == htlc.Reason
+//@   ensures retn(closeCircuit, 1) != nil ==> result == retn(closeCircuit, 1)
+//@
+//@ func (s *Switch) teardownCircuit
+//@   props C07
+//@   loop * havoc
+//@   site call DeleteCircuits: assert len(arg(1)) == 1 && (typeis(pkt.htlc, *lnwire.UpdateFulfillHTLC) || typeis(pkt.htlc, *lnwire.UpdateFailHTLC))
+//@   site call inKey: assert arg(0) == pkt
+//@   ensures result == nil ==> called(DeleteCircuits) && ret(DeleteCircuits) == nil
